@@ -459,11 +459,24 @@ func c08go(c *engine.Ctx) {
 		nOrigin := 0
 		for _, sd := range sends {
 			s := sd.Outer
-			names, isDef, found := kcClauseOf(f, s.Node, bt)
+			// banker types under which this send can execute (switch or if-chain alike)
+			var names []string
+			other := kcReachableWith(f, s, bt, nil)
+			for _, k := range []string{"btReadonly", "btOriginSend", "btRealmSend", "btRealmIssue"} {
+				kc, _ := f.Pkg.Types.Scope().Lookup(k).(*types.Const)
+				if kc == nil {
+					c.Undecided("anchor", c08BkGo+"."+k, "banker type constant not found")
+					other = true
+					continue
+				}
+				if kcReachableWith(f, s, bt, kc.Val()) {
+					names = append(names, k)
+				}
+			}
 			key := f.Name + " send under case " + strings.Join(names, ",")
 			switch {
-			case !found || isDef:
-				kcAt(c, p, "origin-send-limit", f.Name+" send outside a banker-type case", s.Pos(), false, "every send must sit in a case of the switch on the banker type")
+			case other || len(names) == 0:
+				kcAt(c, p, "origin-send-limit", f.Name+" send outside a banker-type case", s.Pos(), false, "every send must be confined to known banker types (reachable for an unlisted type value)")
 			case len(names) == 1 && names[0] == "btOriginSend":
 				nOrigin++
 				// analysed in the function that holds the send (the native itself or the helper)
@@ -612,7 +625,7 @@ func c08go(c *engine.Ctx) {
 		{"MintCoins", []string{c08VM + ".(*SDKBanker).IssueCoin", "gno.land/pkg/gnoland.NewAppWithOptions"}},
 		{"BurnCoins", []string{c08VM + ".(*SDKBanker).RemoveCoin"}},
 		{"SetCoins", []string{"gno.land/pkg/gnoland.(InitChainerConfig).applyBalance"}},
-		{"SubtractCoins", []string{B + "InputOutputCoins", B + "sendCoins", B + "BurnCoins"}},
+		{"SubtractCoins", []string{B + "InputOutputCoins", B + "sendCoins", B + "SendCoins" /* when sendCoins is inlined */, B + "BurnCoins"}},
 		{"subtractCoinsUnrestricted", []string{B + "SendCoinsUnrestricted"}},
 		{"subtract", []string{B + "SubtractCoins", B + "subtractCoinsUnrestricted"}},
 		{"sendCoins", []string{B + "SendCoins"}},
